@@ -413,8 +413,6 @@ package server
 //@   loop 1 decreases byteCol - startByte
 
 // ---- C16: the result limit ----
-//@ trusted (*Server).getWorkspaceResolved
-//@   effects none
 //@ trusted determineCompletionContext
 //@   effects none
 //@ trusted (*Server).generateCompletionItems
@@ -441,3 +439,53 @@ package server
 //@   modifies s.workspace.cachedAccounts, s.workspace.cachedCommodities
 //@   loop 1 invariant 0 - 1 <= rangeindex && rangeindex <= len(parseErrs) - 1
 //@   loop 2 invariant 0 - 1 <= rangeindex && rangeindex <= len(result.Diagnostics) - 1 && result != nil && DiagsOK(result)
+
+// ---- C09: occurrences are attributed to the file that contains them ----
+// wsRootPath(s): the root journal path of the server's workspace (what srcPath of the workspace's resolved tree is).
+//@ specfun wsRootPath(s *Server) string
+
+// A resolved tree handed out by the workspace belongs to the workspace root, not to the requesting document.
+//@ trusted (*Server).getWorkspaceResolved
+//@   effects none
+//@   ensures s.workspace != nil && result != nil ==> srcPath(result) == wsRootPath(s) || srcPath(result) == uriPath(docURI)
+
+//@ specfun uriPath(u protocol.DocumentURI) string
+//@ trusted uriToPath
+//@   effects none
+//@   ensures result == uriPath(docURI)
+
+//@ func locationsEqual
+//@   props C09
+//@   effects none
+//@   ensures [C09:exact] result <==> (a.URI == b.URI && a.Range == b.Range)
+
+// The map from file path to journal: every journal sits under the path of the file it was parsed from. That needs the
+// primary journal of a resolved tree to be labelled with ITS path (srcPath), which the callers must establish.
+//@ func allJournalsWithPaths
+//@   props C09
+//@   requires [C09:primary_is_current] resolved != nil && resolved.Primary != nil && currentPath != "" ==> srcPath(resolved) == currentPath
+//@   ensures [fresh] result != nil && fresh(result)
+//@   ensures [C09:files] resolved != nil ==> (forall p string :: {result[p]} p != currentPath ==> result[p] == resolved.Files[p])
+//@   ensures [C09:primary] resolved != nil && resolved.Primary != nil && currentPath != "" ==> result[currentPath] == resolved.Primary
+//@   ensures [C09:single] resolved == nil && currentJournal != nil && currentPath != "" ==> result[currentPath] == currentJournal && (forall p string :: {result[p]} p != currentPath ==> !has(result, p))
+//@   loop 1 modifies result[*]
+//@   loop 1 invariant result != nil && fresh(result) && resolved != nil
+//@   loop 1 invariant forall p string :: {result[p]} result[p] == ite(iterseen[p], resolved.Files[p], 0) && (has(result, p) <==> iterseen[p])
+//@   loop 1 invariant forall p string :: iterseen[p] ==> has(resolved.Files, p)
+
+//@ trusted findDefinitionTarget
+//@   effects none
+//@ trusted findAccountReferences
+//@ trusted findCommodityReferences
+//@ trusted findPayeeReferences
+
+// findReferences hands the tree and the requesting document's path to the per-kind searches, which label the tree's
+// primary journal with that path (allJournalsWithPaths): the tree must therefore be the requesting document's own.
+//@ func findReferences
+//@   props C09
+//@   requires target != nil
+//@   requires [C09:tree_of_current_file] resolved != nil && resolved.Primary != nil && currentPath != "" ==> srcPath(resolved) == currentPath
+
+//@ func (*Server).References
+//@   props C09
+//@   requires s != nil && params != nil && DocSmall(s, params.TextDocument.URI)
